@@ -116,7 +116,7 @@ def tlc_raw(module, cfg, metadir, workers=1, xmx="3g", timeout=3000, env=None, e
     shutil.rmtree(metadir, ignore_errors=True)
     gc = ["-XX:+UseSerialGC", "-XX:TieredStopAtLevel=1"] if light else ["-XX:+UseParallelGC", "-XX:ParallelGCThreads=4"]
     cmd = ["java"] + gc + ["-Xmx" + xmx, "-cp", TLA_CP, "tlc2.TLC",
-           "-workers", str(workers), "-metadir", metadir, "-cleanup", "-noGenerateSpecTE",
+           "-workers", str(workers), "-metadir", metadir, "-cleanup", "-noGenerateSpecTE", "-checkpoint", "0",
            "-config", cfg if os.path.isabs(cfg) else os.path.join(SPEC, cfg), os.path.join(SPEC, module)] + (extra or [])
     p = sh(cmd, timeout=timeout, env=e, cwd=SPEC, check=False)
     shutil.rmtree(metadir, ignore_errors=True)
